@@ -190,6 +190,39 @@ def native_storage():
             failures.append(dict(key="cid-storage", what="the same CID stored as csv/ods/xlsx loads as %r" % (sums,), args={}))
         else:
             samples.append(dict(query="native/cid-storage", summary=str(sums["csv"])[:300]))
+        # the container is recognised by the file suffix whatever its case
+        for kind, p in sorted(paths.items()):
+            stem, suffix = os.path.splitext(p)
+            for variant in (suffix.upper(), suffix.capitalize()):
+                n += 1
+                q = os.path.join(d, "Renamed_" + kind + variant)
+                shutil.copyfile(p, q)
+                try:
+                    got = summary(interface.Cid(q))
+                except Exception as e:  # noqa
+                    got = "%s: %s" % (type(e).__name__, e)
+                if got != sums["csv"]:
+                    failures.append(dict(key="cid-storage", what="the CID stored as %s loads as %r, stored as csv as %r" % (
+                        os.path.basename(q), got, sums["csv"]), args=dict(name=os.path.basename(q))))
+        # a commented cell (office:annotation holds paragraphs of its own) has the value of its own paragraphs only
+        n += 1
+        people = [["id", "name"], ["1", "Miller"], ["2", "Webster"]]
+        ppaths = store(people, "people", dict())
+        doc = encode_document([("s", people)])
+        annotated = doc.replace("<text:p>Miller</text:p>", '<office:annotation><text:p>double check</text:p><text:p>the spelling</text:p>'
+                                '</office:annotation><text:p>Miller</text:p>')
+        if annotated == doc:
+            failures.append(dict(key="harness", what="could not place the annotation", args={}))
+        write_ods(ppaths["ods"], annotated)
+        pv = {}
+        for kind, fmt in (("csv", "delimited"), ("ods", "ods"), ("xlsx", "excel")):
+            cid = interface.create_cid_from_string("d,format,%s\nd,header,1\nf,id,,,,Integer\nf,name,,,...7,Choice,\"Miller,Webster\"\n" % fmt)
+            try:
+                pv[kind] = ["error" if isinstance(r, errors.DataError) else r for r in validio.rows(cid, ppaths[kind], on_error="yield")]
+            except Exception as e:  # noqa
+                pv[kind] = "%s: %s" % (type(e).__name__, e)
+        if not (pv["csv"] == pv["ods"] == pv["xlsx"] == people[1:]):
+            failures.append(dict(key="data-storage-annotation", what="a table with a commented ODS cell is read as %r" % (pv,), args={}))
         # cells with carriage returns, consecutive blanks and tabs: the same values whatever the container
         special = [["k", "text"], ["1", "a\r\nb"], ["2", "Dr.   Who"], ["3", "tab\there"], ["4", "x\ry"]]
         spaths = store(special, "special", dict(ws_elements=True, span_at=2))
